@@ -629,7 +629,22 @@ func c10Verify(c *Ctx) {
 		}
 	}
 	c.Check(okFilter, rule, fname(f), "only chains passing checkChainForKeyUsage are returned", "", "candidate chains are added to the result without the extended-key-usage filter", pos)
-	// default usage ServerAuth
+	// the filter itself: a certificate whose only extended key usages are ones this package does not know is NOT a
+	// certificate without usage restrictions. Necessary condition, decided on the resolved tests: the filter has a
+	// test over the certificate's UnknownExtKeyUsage (without one it cannot tell the two apart).
+	if g := c.Fn("x509", "checkChainForKeyUsage"); g != nil {
+		cg := newCondIndex(g, allParamNames(g))
+		has := false
+		for _, s := range cg.conds {
+			if strings.Contains(s, "UnknownExtKeyUsage") {
+				has = true
+			}
+		}
+		c.Evals += len(cg.conds)
+		c.Check(has, rule, fname(g), "unknown extended key usages count as a restriction", "a test over UnknownExtKeyUsage decides whether the certificate is unrestricted", "no test of the filter reads UnknownExtKeyUsage: a certificate restricted to usages this package does not know is treated as valid for every usage", g.Pos())
+	} else {
+		c.Missing(rule, "x509.checkChainForKeyUsage", "function", "not found")
+	}
 }
 
 func c10BuildChains(c *Ctx) {
